@@ -1,9 +1,12 @@
 #!/usr/bin/env python3
 """rs2coq: a deliberately small Rust -> Gallina translator for src/effector.rs
-(part 1, below) and for four small string functions - key_match / key_get of
-src/model/function_map.rs, csv_field / remove_comment of src/util.rs - (part 2,
-second half of this file: coq/Gen/StrFnGen.v, proved equal to the model in
-coq/PinChecks/PcStrFnGen.v).  main() writes both generated files.
+(part 1, below), for four small string functions - key_match / key_get of
+src/model/function_map.rs, csv_field / remove_comment of src/util.rs - (part 2:
+coq/Gen/StrFnGen.v, proved equal to the model in coq/PinChecks/PcStrFnGen.v)
+and for the five management entry points of src/internal_api.rs (part 4, last
+third of this file: coq/Gen/InternalGen.v, proved equal to step_add ..
+step_remove_filtered of Model/Engine.v in coq/PinChecks/PcInternalGen.v).
+main() writes the three generated files.
 
 Part 1.
 
@@ -851,6 +854,831 @@ def generate_str():
     return "\n".join(out) + "\n", ok
 
 
+# ====================================================================== part 4
+# The five management entry points of `impl<T> InternalApi for T`
+# (src/internal_api.rs) -> coq/Gen/InternalGen.v, programs over the primitives of
+# Model/Engine.v and coq/Gen/InternalPrims.v.  coq/PinChecks/PcInternalGen.v proves
+# each of them equal to the hand-written step of the model for all states and
+# arguments.
+#
+# 1. cfg resolution.  `#[cfg(pred)] { .. }` in statement or expression position
+#    is kept (as a plain block) when pred holds for the build under
+#    verification (FEATURES below) and dropped otherwise; pred is
+#    feature = "x" | any(..) | all(..) | not(..).  A cfg on anything but a block,
+#    or an unknown feature, is Untranslatable.
+# 2. parsing into a small AST
+#      block = (stmts, final expression | None)
+#      stmt  = ("let", pattern, e) | ("ret", e) | ("if", e, block, block | None) | ("expr", e) | ("block", block)
+#      e     = ("var", x) | ("str", s) | ("lit", b) | ("not", e) | ("and", a, b) | ("or", a, b) | ("eq", a, b, negated)
+#            | ("mcall", receiver, method, args) | ("await", e) | ("try", e) | ("path", name, args | None)
+#            | ("tuple", es) | ("vec", es) | ("blockv", block)
+# 3. recognition of the calls, by pattern (everything else is Untranslatable):
+#      self.has_auto_save_enabled() / has_auto_notify_watcher_enabled() / has_auto_build_role_links_enabled()
+#                                                      -> e_auto_save s / e_auto_notify s / e_auto_build s   (the CURRENT state)
+#      self.get_mut_adapter().M(sec, ptype, x).await?  -> ad_add / ad_add_many / ad_remove / ad_remove_many / ad_remove_filtered
+#                                                         + upd_adapter; Err and Panic leave the function
+#      self.get_mut_model().M(sec, ptype, x)           -> m_add_policy / .. / m_remove_filtered + upd_model (None = panic)
+#      EventData::AddPolicy(a, b, c) ..                -> EvAdd a b c ..    (the arguments in the order of the source)
+#      self.emit(Event::PolicyChange, d)               -> emit s d
+#      self.emit(Event::ClearCache, EventData::ClearCache) -> clear_cache s (the hook; identity for the plain enforcer)
+#      self.build_incremental_role_links(d)?           -> build_incremental_role_links s d; LErr leaves the function
+#      self.build_role_links()?                        -> build_role_links s
+#      sec != "g"  !e  a && b  a || b  (short-circuit: an operand with an effect is only run when reached)
+#      x.clone() .to_owned() .to_string() .into()  &e    -> identity
+#      Ok(b)  Ok((b, rules))  return e;  let x = e;  let (x, y) = e;  if c { .. } [else { .. }]
+# 4. emission in continuation-passing style; the Gallina variable `s` is always
+#    the current enforcer state (every effect rebinds it).  Where two paths join
+#    (an `if` without a returning branch, a short-circuit operator with an
+#    effectful operand) the branches are emitted as `estate * flow A`
+#    (InternalPrims.flow) and matched once, so no continuation is duplicated.
+
+FEATURES = {"incremental": True, "watcher": True, "cached": True, "logging": False, "explain": False}
+
+ITOK = re.compile(r"""\s*(?:(//[^\n]*)|(/\*.*?\*/)|("(?:[^"\\]|\\.)*")|(\d+)"""
+                  r"""|([A-Za-z_]\w*(?:::[A-Za-z_]\w*)*!?)|(\|\||&&|==|!=|[#{}()\[\];=!&.,<>?|])|(\S))""", re.S)
+
+
+def ilex(src):
+    out = []
+    i = 0
+    while i < len(src):
+        if src[i:].strip() == "":
+            break
+        m = ITOK.match(src, i)
+        if not m:
+            raise Untranslatable("cannot tokenise at: %r" % src[i:i + 30])
+        i = m.end()
+        if m.group(1) or m.group(2):
+            continue
+        if m.group(7) is not None:
+            raise Untranslatable("unexpected character %r" % m.group(7))
+        for k, kind in ((3, "str"), (4, "int"), (5, "id"), (6, "op")):
+            if m.group(k) is not None:
+                out.append((kind, m.group(k)))
+                break
+    return out
+
+
+I_IDENTITY = ("clone", "to_owned", "to_string", "into")
+I_KEYWORDS = ("let", "return", "else", "match", "while", "for", "loop", "mut", "fn", "async", "move", "ref", "in", "as")
+
+
+class IP:
+    """parser of the entry-point subset, with cfg resolution"""
+
+    def __init__(self, toks, features):
+        self.t = toks
+        self.i = 0
+        self.features = features
+
+    def peek(self, k=0):
+        return self.t[self.i + k] if self.i + k < len(self.t) else ("eof", "")
+
+    def eat(self, val=None):
+        tk = self.peek()
+        if val is not None and tk[1] != val:
+            raise Untranslatable("expected %r, found %r" % (val, tk[1] or "end of body"))
+        if tk[0] == "eof":
+            raise Untranslatable("unexpected end of the body")
+        self.i += 1
+        return tk
+
+    # ---- cfg
+    def cfg(self):
+        """# [ cfg ( pred ) ] -> bool"""
+        self.eat("#")
+        self.eat("[")
+        if self.peek() != ("id", "cfg"):
+            raise Untranslatable("attribute #[%s..]" % self.peek()[1])
+        self.eat()
+        self.eat("(")
+        v = self.pred()
+        if self.peek() == ("op", ","):
+            self.eat()
+        self.eat(")")
+        self.eat("]")
+        return v
+
+    def pred(self):
+        kind, v = self.eat()
+        if (kind, v) == ("id", "feature"):
+            self.eat("=")
+            k2, lit = self.eat()
+            if k2 != "str":
+                raise Untranslatable("cfg(feature = %s)" % lit)
+            name = lit[1:-1]
+            if name not in self.features:
+                raise Untranslatable("cfg on the unknown feature %r" % name)
+            return self.features[name]
+        if kind == "id" and v in ("any", "all", "not"):
+            self.eat("(")
+            vals = []
+            while self.peek() != ("op", ")"):
+                vals.append(self.pred())
+                if self.peek() == ("op", ","):
+                    self.eat()
+                elif self.peek() != ("op", ")"):
+                    raise Untranslatable("cfg predicate near %r" % self.peek()[1])
+            self.eat(")")
+            if v == "not":
+                if len(vals) != 1:
+                    raise Untranslatable("cfg(not(..)) with %d operands" % len(vals))
+                return not vals[0]
+            return any(vals) if v == "any" else all(vals)
+        raise Untranslatable("cfg predicate %r" % v)
+
+    # ---- expressions
+    def expr(self):
+        e = self.and_()
+        while self.peek() == ("op", "||"):
+            self.eat()
+            e = ("or", e, self.and_())
+        return e
+
+    def and_(self):
+        e = self.cmp()
+        while self.peek() == ("op", "&&"):
+            self.eat()
+            e = ("and", e, self.cmp())
+        return e
+
+    def cmp(self):
+        a = self.unary()
+        if self.peek() in (("op", "=="), ("op", "!=")):
+            op = self.eat()[1]
+            return ("eq", a, self.unary(), op == "!=")
+        return a
+
+    def unary(self):
+        if self.peek() == ("op", "!"):
+            self.eat()
+            return ("not", self.unary())
+        if self.peek() == ("op", "&"):
+            self.eat()
+            if self.peek() == ("id", "mut"):
+                raise Untranslatable("&mut borrow")
+            return self.unary()
+        return self.postfix()
+
+    def args(self, closer=")"):
+        out = []
+        while self.peek() != ("op", closer):
+            out.append(self.expr())
+            if self.peek() == ("op", ","):
+                self.eat()
+            elif self.peek() != ("op", closer):
+                raise Untranslatable("argument list near %r" % self.peek()[1])
+        self.eat(closer)
+        return out
+
+    def postfix(self):
+        e = self.primary()
+        while True:
+            if self.peek() == ("op", "."):
+                self.eat()
+                kind, name = self.eat()
+                if kind != "id" or "::" in name or name.endswith("!"):
+                    raise Untranslatable("method name " + name)
+                if name == "await":
+                    e = ("await", e)
+                    continue
+                self.eat("(")
+                e = ("mcall", e, name, self.args())
+            elif self.peek() == ("op", "?"):
+                self.eat()
+                e = ("try", e)
+            else:
+                return e
+
+    def primary(self):
+        kind, v = self.peek()
+        if kind == "str":
+            self.eat()
+            return ("str", pins.rust_unescape(v[1:-1]))
+        if kind == "op" and v == "(":
+            self.eat()
+            es = []
+            trailing = False
+            while self.peek() != ("op", ")"):
+                es.append(self.expr())
+                trailing = False
+                if self.peek() == ("op", ","):
+                    self.eat()
+                    trailing = True
+                elif self.peek() != ("op", ")"):
+                    raise Untranslatable("parenthesised expression near %r" % self.peek()[1])
+            self.eat(")")
+            if len(es) == 1 and not trailing:
+                return es[0]
+            return ("tuple", es)
+        if kind == "op" and v == "{":
+            return ("blockv", self.block())
+        if kind == "op" and v == "#":
+            # cfg-selected alternatives in expression position must be inside a block
+            raise Untranslatable("attribute in expression position outside a block")
+        if kind == "id":
+            if v == "vec!":
+                self.eat()
+                closer = {"[": "]", "(": ")"}.get(self.peek()[1])
+                if closer is None:
+                    raise Untranslatable("vec! delimiter")
+                self.eat()
+                return ("vec", self.args(closer))
+            if v in ("true", "false"):
+                self.eat()
+                return ("lit", v)
+            if v.endswith("!") or v in I_KEYWORDS or v == "if":
+                raise Untranslatable("unsupported %s in an expression" % v)
+            self.eat()
+            if "::" in v or v == "Ok" or v == "Err" or v == "Some":
+                if self.peek() == ("op", "("):
+                    self.eat()
+                    return ("path", v, self.args())
+                return ("path", v, None)
+            return ("var", v)
+        raise Untranslatable("unexpected token " + (v or "end of body"))
+
+    # ---- statements
+    def block(self):
+        self.eat("{")
+        b = self.seq()
+        self.eat("}")
+        return b
+
+    def if_(self):
+        self.eat("if")
+        if self.peek() == ("id", "let"):
+            raise Untranslatable("if let")
+        c = self.expr()
+        th = self.block()
+        el = None
+        if self.peek() == ("id", "else"):
+            self.eat()
+            if self.peek() == ("id", "if"):
+                el = ([self.if_()], None)
+            else:
+                el = self.block()
+        return ("if", c, th, el)
+
+    def seq(self):
+        stmts, final = [], None
+        while self.peek() != ("op", "}") and self.peek()[0] != "eof":
+            if final is not None:
+                raise Untranslatable("statement after the value of a block")
+            kind, v = self.peek()
+            if (kind, v) == ("op", "#"):
+                keep = self.cfg()
+                if self.peek() != ("op", "{"):
+                    raise Untranslatable("#[cfg] on something that is not a block")
+                b = self.block()
+                if keep:
+                    stmts.append(("block", b))
+            elif (kind, v) == ("op", "{"):
+                stmts.append(("block", self.block()))
+            elif (kind, v) == ("id", "let"):
+                self.eat()
+                if self.peek() == ("op", "("):
+                    self.eat()
+                    names = []
+                    while self.peek() != ("op", ")"):
+                        k2, x = self.eat()
+                        if k2 != "id" or "::" in x or x.endswith("!") or x in I_KEYWORDS:
+                            raise Untranslatable("let pattern " + x)
+                        names.append(x)
+                        if self.peek() == ("op", ","):
+                            self.eat()
+                    self.eat(")")
+                    pat = ("tup", names)
+                else:
+                    k2, x = self.eat()
+                    if k2 != "id" or "::" in x or x.endswith("!") or x in I_KEYWORDS:
+                        raise Untranslatable("let pattern " + x)
+                    pat = ("v", x)
+                self.eat("=")
+                e = self.expr()
+                self.eat(";")
+                stmts.append(("let", pat, e))
+            elif (kind, v) == ("id", "return"):
+                self.eat()
+                e = self.expr()
+                if self.peek() == ("op", ";"):
+                    self.eat()
+                stmts.append(("ret", e))
+            elif (kind, v) == ("id", "if"):
+                stmts.append(self.if_())
+                if self.peek() == ("op", ";"):
+                    self.eat()
+            else:
+                e = self.expr()
+                if self.peek() == ("op", ";"):
+                    self.eat()
+                    stmts.append(("expr", e))
+                else:
+                    final = e
+        # a cfg-selected / nested block in last position that has a value is the value of the block
+        if final is None and stmts and stmts[-1][0] == "block" and stmts[-1][1][1] is not None:
+            final = ("blockv", stmts[-1][1])
+            stmts = stmts[:-1]
+        return (stmts, final)
+
+
+def i_nodes(node):
+    """every tuple node of an AST fragment (blocks are (list, node|None) pairs)"""
+    if isinstance(node, tuple):
+        if node and isinstance(node[0], str):
+            yield node
+        for x in node:
+            for y in i_nodes(x):
+                yield y
+    elif isinstance(node, list):
+        for x in node:
+            for y in i_nodes(x):
+                yield y
+
+
+I_EFFECT_METHODS = ("get_mut_adapter", "get_adapter", "get_mut_model", "emit", "build_role_links",
+                    "build_incremental_role_links")
+
+
+def i_effectful(e):
+    return any(n[0] in ("try", "await") or (n[0] == "mcall" and n[2] in I_EFFECT_METHODS) for n in i_nodes(e))
+
+
+def i_may_exit(x):
+    return any(n[0] in ("ret", "try") or (n[0] == "mcall" and n[2] == "remove_filtered_policy"
+                                           and n[1][0] == "mcall" and n[1][2] == "get_mut_model")
+               for n in i_nodes(x))
+
+
+def i_always_exits(blk):
+    stmts, final = blk
+    if final is not None or not stmts:
+        return False
+    st = stmts[-1]
+    if st[0] == "ret":
+        return True
+    if st[0] == "block":
+        return i_always_exits(st[1])
+    if st[0] == "if":
+        return st[3] is not None and i_always_exits(st[2]) and i_always_exits(st[3])
+    return False
+
+
+I_ADAPTER = {"add_policy": ("ad_add", ("text", "text", "rule")),
+             "add_policies": ("ad_add_many", ("text", "text", "rules")),
+             "remove_policy": ("ad_remove", ("text", "text", "rule")),
+             "remove_policies": ("ad_remove_many", ("text", "text", "rules")),
+             "remove_filtered_policy": ("ad_remove_filtered", ("text", "text", "nat", "rule"))}
+I_MODEL = {"add_policy": ("m_add_policy", ("text", "text", "rule")),
+           "add_policies": ("m_add_policies", ("text", "text", "rules")),
+           "remove_policy": ("m_remove_policy", ("text", "text", "rule")),
+           "remove_policies": ("m_remove_policies", ("text", "text", "rules"))}
+I_EVENTS = {"EventData::AddPolicy": ("EvAdd", ("text", "text", "rule")),
+            "EventData::AddPolicies": ("EvAddMany", ("text", "text", "rules")),
+            "EventData::RemovePolicy": ("EvRemove", ("text", "text", "rule")),
+            "EventData::RemovePolicies": ("EvRemoveMany", ("text", "text", "rules")),
+            "EventData::RemoveFilteredPolicy": ("EvRemoveFiltered", ("text", "text", "rules"))}
+I_FLAGS = {"has_auto_save_enabled": "e_auto_save", "has_auto_notify_watcher_enabled": "e_auto_notify",
+           "has_auto_build_role_links_enabled": "e_auto_build"}
+I_SELF = ("var", "self")
+
+
+class IE:
+    """emission; a value is (type, term) with type in
+       bool text rule rules nat event unit result emptyvec evkind:<K> ccdata ("tuple", [values])"""
+
+    def __init__(self, ret):
+        self.ret = ret            # "bool" | "bool+rules"
+        self.n = 0
+        self.exitf = lambda o: "(s, %s)" % o
+
+    def fresh(self, base):
+        self.n += 1
+        return "%s_%d" % (base, self.n)
+
+    def flow(self, f):
+        """run f with exits wrapped for a join point"""
+        old = self.exitf
+        self.exitf = lambda o: "(s, Exit %s)" % o
+        try:
+            return f()
+        finally:
+            self.exitf = old
+
+    def join(self, flow_term, k):
+        """match a term of type estate * flow A once; k receives the name bound to the value"""
+        o, c = self.fresh("o"), self.fresh("c")
+        return "match %s with\n| (s, Exit %s) => %s\n| (s, Next %s) =>\n%s\nend" % (
+            flow_term, o, self.exitf(o), c, k(c))
+
+    @staticmethod
+    def upd(x, rest):
+        return x if rest == "s" else "let s := %s in\n%s" % (x, rest)
+
+    def pure(self, e, env, what):
+        if i_effectful(e):
+            raise Untranslatable("%s with an effect" % what)
+        box = []
+
+        def k(v):
+            box.append(v)
+            return ""
+        self.ev(e, env, k)
+        if len(box) != 1:
+            raise Untranslatable("%s could not be evaluated" % what)
+        return box[0]
+
+    def typed_args(self, what, args, tys, env):
+        if len(args) != len(tys):
+            raise Untranslatable("%s with %d argument(s), expected %d" % (what, len(args), len(tys)))
+        out = []
+        for a, ty in zip(args, tys):
+            t, term = self.pure(a, env, "argument of " + what)
+            if t == "emptyvec" and ty in ("rule", "rules"):
+                t = ty
+            if t != ty:
+                raise Untranslatable("argument of %s: a %s where a %s is expected" % (what, tyname4(t), ty))
+            out.append(term)
+        return out
+
+    # ---- expressions (continuation-passing; k is called exactly once, with a value)
+    def ev(self, e, env, k):
+        kind = e[0]
+        if kind == "var":
+            if e[1] not in env:
+                raise Untranslatable("identifier " + e[1])
+            return k(env[e[1]])
+        if kind == "str":
+            return k(("text", coq_text(e[1])))
+        if kind == "lit":
+            return k(("bool", e[1]))
+        if kind == "not":
+            def knot(v):
+                if v[0] != "bool":
+                    raise Untranslatable("! on a " + tyname4(v[0]))
+                return k(("bool", "(negb %s)" % v[1]))
+            return self.ev(e[1], env, knot)
+        if kind in ("and", "or"):
+            return self.ev_short(e, env, k)
+        if kind == "eq":
+            ta, a = self.pure(e[1], env, "operand of a comparison")
+            tb, b = self.pure(e[2], env, "operand of a comparison")
+            if ta != tb or ta not in ("text", "bool"):
+                raise Untranslatable("comparison of %s with %s" % (tyname4(ta), tyname4(tb)))
+            c = "(%s %s %s)" % ("teqb" if ta == "text" else "Bool.eqb", a, b)
+            return k(("bool", "(negb %s)" % c if e[3] else c))
+        if kind == "blockv":
+            stmts, final = e[1]
+            if stmts or final is None:
+                raise Untranslatable("block expression with statements")
+            return self.ev(final, env, k)
+        if kind == "tuple":
+            return k(("tuple", [self.pure(x, env, "tuple component") for x in e[1]]))
+        if kind == "vec":
+            if e[1]:
+                raise Untranslatable("non-empty vec!")
+            return k(("emptyvec", "[]"))
+        if kind == "path":
+            return self.ev_path(e, env, k)
+        if kind == "try":
+            inner = e[1]
+            awaited = inner[0] == "await"
+            if awaited:
+                inner = inner[1]
+            return self.ev_try(inner, awaited, env, k)
+        if kind == "await":
+            raise Untranslatable(".await whose Result is not consumed by `?`")
+        if kind == "mcall":
+            return self.ev_mcall(e, env, k)
+        raise Untranslatable("expression " + kind)
+
+    def ev_short(self, e, env, k):
+        op = e[0]
+        sym = "&&" if op == "and" else "||"
+
+        def chk(v):
+            if v[0] != "bool":
+                raise Untranslatable("%s on a %s" % (sym, tyname4(v[0])))
+            return v[1]
+        if not i_effectful(e[2]):
+            return self.ev(e[1], env, lambda va: self.ev(
+                e[2], env, lambda vb: k(("bool", "(%s %s %s)" % (chk(va), sym, chk(vb))))))
+
+        # the right operand has an effect: it only runs when the left one does not decide
+        def ka(va):
+            a = chk(va)
+            rhs = self.flow(lambda: self.ev(e[2], env, lambda vb: "(s, Next %s)" % chk(vb)))
+            if op == "and":
+                term = "(if %s then\n%s\nelse (s, Next false))" % (a, rhs)
+            else:
+                term = "(if %s then (s, Next true) else\n%s)" % (a, rhs)
+            return self.join(term, lambda c: k(("bool", c)))
+        return self.ev(e[1], env, ka)
+
+    def ev_path(self, e, env, k):
+        name, args = e[1], e[2]
+        if name in I_EVENTS:
+            ctor, tys = I_EVENTS[name]
+            if args is None:
+                raise Untranslatable(name + " without arguments")
+            ts = self.typed_args(name, args, tys, env)
+            return k(("event", "(%s %s)" % (ctor, " ".join(ts))))
+        if name == "EventData::ClearCache" and args is None:
+            return k(("ccdata", ""))
+        if name in ("Event::PolicyChange", "Event::ClearCache") and args is None:
+            return k(("evkind:" + name.split("::")[1], ""))
+        if name == "Ok" and args is not None and len(args) == 1:
+            t, term = self.pure(args[0], env, "operand of Ok")
+            if t == "bool" and self.ret == "bool":
+                return k(("result", "(Ok %s)" % term))
+            if t == "tuple" and self.ret == "bool+rules" and len(term) == 2 \
+                    and term[0][0] == "bool" and term[1][0] in ("rules", "emptyvec"):
+                # the model's step type keeps the flag only (Engine.step_remove_filtered)
+                return k(("result", "(Ok %s)" % term[0][1]))
+            raise Untranslatable("Ok of a %s in a function returning %s" % (tyname4(t), self.ret))
+        raise Untranslatable("path " + name + ("(..)" if args is not None else ""))
+
+    def ev_try(self, inner, awaited, env, k):
+        if inner[0] != "mcall":
+            raise Untranslatable("`?` on an unrecognised expression")
+        recv, name, args = inner[1], inner[2], inner[3]
+        if recv[0] == "mcall" and recv[1] == I_SELF and recv[2] == "get_mut_adapter" and not recv[3]:
+            if not awaited:
+                raise Untranslatable("adapter call without .await")
+            if name not in I_ADAPTER:
+                raise Untranslatable("adapter method " + name)
+            fn, tys = I_ADAPTER[name]
+            ts = self.typed_args("adapter." + name, args, tys, env)
+            ad, ares, b, err = self.fresh("ad"), self.fresh("ares"), self.fresh("b"), self.fresh("e")
+            return ("let (%s, %s) := %s (e_adapter s) %s in\nlet s := upd_adapter s %s in\nmatch %s with\n"
+                    "| Ok %s =>\n%s\n| Err %s => %s\n| Panic => %s\nend" % (
+                        ad, ares, fn, " ".join(ts), ad, ares, b, k(("bool", b)),
+                        err, self.exitf("(Err %s)" % err), self.exitf("Panic")))
+        if awaited:
+            raise Untranslatable(".await on " + name)
+        if recv == I_SELF and name in ("build_incremental_role_links", "build_role_links"):
+            if name == "build_incremental_role_links":
+                (t, d), = [self.pure(a, env, "argument of " + name) for a in args] if len(args) == 1 else [(None, None)]
+                if t != "event":
+                    raise Untranslatable("build_incremental_role_links expects one EventData")
+                call = "build_incremental_role_links s %s" % d
+            else:
+                if args:
+                    raise Untranslatable("build_role_links with arguments")
+                call = "build_role_links s"
+            le, err = self.fresh("le"), self.fresh("e")
+            return "let (s, %s) := %s in\nmatch %s with\n| LOk =>\n%s\n| LErr %s => %s\nend" % (
+                le, call, le, k(("unit", "tt")), err, self.exitf("(Err %s)" % err))
+        raise Untranslatable("`?` on %s" % name)
+
+    def ev_mcall(self, e, env, k):
+        recv, name, args = e[1], e[2], e[3]
+        if recv == I_SELF:
+            if name in I_FLAGS and not args:
+                return k(("bool", "(%s s)" % I_FLAGS[name]))
+            if name == "emit" and len(args) == 2:
+                tk, _ = self.pure(args[0], env, "event kind")
+                td, d = self.pure(args[1], env, "event data")
+                if tk == "evkind:PolicyChange" and td == "event":
+                    return self.upd("emit s %s" % d, k(("unit", "tt")))
+                if tk == "evkind:ClearCache" and td == "ccdata":
+                    return self.upd("clear_cache s", k(("unit", "tt")))
+                raise Untranslatable("emit(%s, %s)" % (tyname4(tk), tyname4(td)))
+            if name in ("build_incremental_role_links", "build_role_links"):
+                raise Untranslatable("the Result of %s is not consumed by `?`" % name)
+            raise Untranslatable("self.%s(..)" % name)
+        if recv[0] == "mcall" and recv[1] == I_SELF and recv[2] == "get_mut_model" and not recv[3]:
+            if name in I_MODEL:
+                fn, tys = I_MODEL[name]
+                ts = self.typed_args("model." + name, args, tys, env)
+                md, chg = self.fresh("md"), self.fresh("chg")
+                return "let (%s, %s) := %s (e_model s) %s in\nlet s := upd_model s %s in\n%s" % (
+                    md, chg, fn, " ".join(ts), md, k(("bool", chg)))
+            if name == "remove_filtered_policy":
+                ts = self.typed_args("model." + name, args, ("text", "text", "nat", "rule"), env)
+                md, chg, rs = self.fresh("md"), self.fresh("chg"), self.fresh("rs")
+                return ("match m_remove_filtered (e_model s) %s with\n| None => %s\n| Some (%s, %s, %s) =>\n"
+                        "let s := upd_model s %s in\n%s\nend" % (
+                            " ".join(ts), self.exitf("Panic"), md, chg, rs, md,
+                            k(("tuple", [("bool", chg), ("rules", rs)]))))
+            raise Untranslatable("model method " + name)
+        if recv[0] == "mcall" and recv[1] == I_SELF and recv[2] in ("get_mut_adapter", "get_adapter"):
+            raise Untranslatable("adapter call that is not `get_mut_adapter().m(..).await?`")
+        if name in I_IDENTITY and not args:
+            def kid(v):
+                if v[0] not in ("text", "rule", "rules"):
+                    raise Untranslatable(".%s() on a %s" % (name, tyname4(v[0])))
+                return k(v)
+            return self.ev(recv, env, kid)
+        raise Untranslatable("method .%s(..)" % name)
+
+    # ---- statements; k receives the environment at the end of the sequence
+    def run(self, stmts, env, k):
+        if not stmts:
+            return k(env)
+        st, rest = stmts[0], stmts[1:]
+        if st[0] == "let":
+            def klet(v):
+                env2 = dict(env)
+                if st[1][0] == "v":
+                    if v[0] in ("unit", "result") or v[0].startswith("evkind") or v[0] == "ccdata":
+                        raise Untranslatable("let of a " + tyname4(v[0]))
+                    if v[0] == "tuple":
+                        raise Untranslatable("let of a tuple without a tuple pattern")
+                    x = "v_" + st[1][1]
+                    env2[st[1][1]] = (v[0], x)
+                    return "let %s := %s in\n%s" % (x, v[1], self.run(rest, env2, k))
+                if v[0] != "tuple" or len(v[1]) != len(st[1][1]):
+                    raise Untranslatable("tuple pattern on a " + tyname4(v[0]))
+                out = ""
+                for x, (t, term) in zip(st[1][1], v[1]):
+                    env2[x] = (t, "v_" + x)
+                    out += "let v_%s := %s in\n" % (x, term)
+                return out + self.run(rest, env2, k)
+            return self.ev(st[2], env, klet)
+        if st[0] == "ret":
+            if rest:
+                raise Untranslatable("code after return")
+
+            def kret(v):
+                if v[0] != "result":
+                    raise Untranslatable("return of a " + tyname4(v[0]))
+                return self.exitf(v[1])
+            return self.ev(st[1], env, kret)
+        if st[0] == "expr":
+            def kex(v):
+                if v[0] != "unit":
+                    raise Untranslatable("expression statement of type " + tyname4(v[0]))
+                return self.run(rest, env, k)
+            return self.ev(st[1], env, kex)
+        if st[0] == "block":
+            if st[1][1] is not None:
+                raise Untranslatable("value of a block in statement position")
+            return self.run(st[1][0], env, lambda _e: self.run(rest, env, k))
+        if st[0] == "if":
+            return self.run_if(st, rest, env, k)
+        raise Untranslatable("statement " + st[0])
+
+    def body_of(self, blk):
+        if blk is None:
+            return []
+        if blk[1] is not None:
+            raise Untranslatable("value of a block in statement position")
+        return blk[0]
+
+    def run_if(self, st, rest, env, k):
+        th, el = st[2], st[3] if st[3] is not None else ([], None)
+        a_th, a_el = i_always_exits(th), i_always_exits(el)
+
+        def dead(_e):
+            raise Untranslatable("internal: continuation of a block that always returns")
+
+        def kc(v):
+            if v[0] != "bool":
+                raise Untranslatable("condition of type " + tyname4(v[0]))
+            c = v[1]
+            if a_th and a_el:
+                if rest:
+                    raise Untranslatable("code after an if whose branches both return")
+                return "if %s then\n%s\nelse\n%s" % (c, self.run(self.body_of(th), env, dead),
+                                                    self.run(self.body_of(el), env, dead))
+            follow = lambda _e: self.run(rest, env, k)   # noqa: E731
+            if a_th:
+                return "if %s then\n%s\nelse\n%s" % (c, self.run(self.body_of(th), env, dead),
+                                                    self.run(self.body_of(el), env, follow))
+            if a_el:
+                return "if %s then\n%s\nelse\n%s" % (c, self.run(self.body_of(th), env, follow),
+                                                    self.run(self.body_of(el), env, dead))
+            if not i_may_exit(th) and not i_may_exit(el):
+                # state updates only
+                t1 = self.run(self.body_of(th), env, lambda _e: "s")
+                t2 = self.run(self.body_of(el), env, lambda _e: "s")
+                return "let s := (if %s then\n%s\nelse\n%s) in\n%s" % (c, t1, t2, self.run(rest, env, k))
+            t1 = self.flow(lambda: self.run(self.body_of(th), env, lambda _e: "(s, Next tt)"))
+            t2 = self.flow(lambda: self.run(self.body_of(el), env, lambda _e: "(s, Next tt)"))
+            return self.join("(if %s then\n%s\nelse\n%s)" % (c, t1, t2), lambda _c: self.run(rest, env, k))
+        return self.ev(st[1], env, kc)
+
+    def function(self, blk, env):
+        stmts, final = blk
+
+        def kend(env2):
+            if final is None:
+                raise Untranslatable("control reaches the end of the function without a value")
+
+            def kfin(v):
+                if v[0] != "result":
+                    raise Untranslatable("the function ends in a " + tyname4(v[0]))
+                return self.exitf(v[1])
+            return self.ev(final, env2, kfin)
+        if final is None and not i_always_exits(blk):
+            raise Untranslatable("control reaches the end of the function without a value")
+        return self.run(stmts, env, kend)
+
+
+def tyname4(t):
+    return t if isinstance(t, str) else "tuple"
+
+
+def i_indent(term, base=2):
+    """re-indent a term emitted one construct per line: depth = open parentheses + open matches
+       (+1 for the two branches of an `if` written over several lines)"""
+    out = []
+    depth = 0
+    for line in term.split("\n"):
+        line = line.strip()
+        if not line:
+            continue
+        d = depth
+        if line.startswith("|") or line.startswith("end") or line.startswith(")"):
+            d = max(0, d - 1)
+        out.append(" " * (base + 2 * d) + line)
+        for w in re.findall(r"\bmatch\b|\bend\b|[()]", re.sub(r'"[^"]*"', '""', line)):
+            depth += 1 if w in ("match", "(") else -1
+    return "\n".join(out)
+
+
+I_FUNCS = (("add_policy_internal", ("text", "text", "rule"), "bool"),
+           ("add_policies_internal", ("text", "text", "rules"), "bool"),
+           ("remove_policy_internal", ("text", "text", "rule"), "bool"),
+           ("remove_policies_internal", ("text", "text", "rules"), "bool"),
+           ("remove_filtered_policy_internal", ("text", "text", "nat", "rule"), "bool+rules"))
+I_COQ_TY = {"text": "text", "rule": "rule", "rules": "list rule", "nat": "nat"}
+# what emit(Event::ClearCache, ..) does is a parameter of every generated program
+I_HOOK = "(clear_cache : estate -> estate)"
+
+
+def i_rust_type(t):
+    t = re.sub(r"\s+", "", t)
+    return {"&str": "text", "Vec<String>": "rule", "Vec<Vec<String>>": "rules", "usize": "nat"}.get(t)
+
+
+def translate_internal_fn(src, start, name, want_tys, want_ret):
+    hdr = r"async\s+fn\s+%s\s*\(([^)]*)\)\s*->\s*([^{;]+?)\s*(?=[{;])" % name
+    m = None
+    for mm in re.finditer(hdr, src[start:]):
+        if src[start + mm.end()] == "{":
+            m = mm
+            break
+    if m is None:
+        raise Untranslatable("%s: definition not found" % name)
+    prms = [x.strip() for x in m.group(1).split(",") if x.strip()]
+    if not prms or re.sub(r"\s+", "", prms[0]) != "&mutself":
+        raise Untranslatable("%s: receiver is not &mut self" % name)
+    params = []
+    for prm in prms[1:]:
+        pm = re.match(r"(\w+)\s*:\s*(.+)$", prm, re.S)
+        ty = i_rust_type(pm.group(2)) if pm else None
+        if ty is None:
+            raise Untranslatable("%s: parameter %r" % (name, prm))
+        params.append((pm.group(1), ty))
+    if tuple(t for _, t in params) != tuple(want_tys):
+        raise Untranslatable("%s: parameter types %s" % (name, [t for _, t in params]))
+    rt = re.sub(r"\s+", "", m.group(2))
+    ret = {"Result<bool>": "bool", "Result<(bool,Vec<Vec<String>>)>": "bool+rules"}.get(rt)
+    if ret != want_ret:
+        raise Untranslatable("%s: return type %s" % (name, rt))
+    body = pins.balanced(src, start + m.end())
+    if body is None:
+        raise Untranslatable("%s: body not found" % name)
+    p = IP(ilex(body.strip()[1:-1]), FEATURES)
+    blk = p.seq()
+    if p.peek()[0] != "eof":
+        raise Untranslatable("%s: trailing tokens" % name)
+    env = {x: (t, "v_" + x) for x, t in params}
+    term = IE(ret).function(blk, env)
+    binders = " ".join("(v_%s : %s)" % (x, I_COQ_TY[t]) for x, t in params)
+    return "Definition gen_%s_cc %s (s : estate) %s : estate * outcome bool :=\n%s.\n" % (
+        name, I_HOOK, binders, i_indent(term))
+
+
+def generate_internal():
+    out = ["(* GENERATED on every run by tools/rs2coq.py (part 4) from /repo/src/internal_api.rs",
+           "   (impl<T> InternalApi for T; cfg resolved for the features %s) - do not edit. *)" % (
+               ", ".join("%s%s" % ("" if v else "!", f) for f, v in sorted(FEATURES.items()))),
+           "From CV Require Import Model.Base Model.Enforce Model.Engine Gen.InternalPrims.", "",
+           "(* gen_.._cc clear_cache: the entry point, with what emit(Event::ClearCache, ..) does as a parameter;",
+           "   gen_.. (below): the plain enforcer, for which it does nothing (InternalPrims.emit_clear_cache) *)", ""]
+    ok = True
+    src = pins.read("src/internal_api.rs")
+    imp = re.search(r"impl\s*<\s*T\s*>\s*InternalApi\s+for\s+T", src or "")
+    for name, tys, ret in I_FUNCS:
+        try:
+            if imp is None:
+                raise Untranslatable("impl<T> InternalApi for T not found")
+            out.append(translate_internal_fn(src, imp.end(), name, tys, ret))
+        except Exception as ex:   # noqa
+            ok = False
+            msg = str(ex) if isinstance(ex, Untranslatable) else "%s: %s" % (type(ex).__name__, ex)
+            out.append("(* translation of %s failed: %s *)" % (name, msg.replace("*)", "* )").replace("(*", "( *")))
+            out.append("Definition gen_%s_cc %s (s : estate) %s : estate * outcome bool := (s, Panic).\n" % (
+                name, I_HOOK, " ".join("(_ : %s)" % I_COQ_TY[t] for t in tys)))
+    for name, _tys, _ret in I_FUNCS:
+        out.append("Definition gen_%s := gen_%s_cc emit_clear_cache." % (name, name))
+    out.append("\nDefinition gen_internal_translated : bool := %s." % ("true" if ok else "false"))
+    return "\n".join(out) + "\n", ok
+
+
 def write_if_changed(dst, txt, ok):
     os.makedirs(os.path.dirname(dst), exist_ok=True)
     old = None
@@ -871,6 +1699,8 @@ def main():
     write_if_changed(dst, txt, ok)
     txt2, ok2 = generate_str()
     write_if_changed(os.path.join(os.path.dirname(dst), "StrFnGen.v"), txt2, ok2)
+    txt4, ok4 = generate_internal()
+    write_if_changed(os.path.join(os.path.dirname(dst), "InternalGen.v"), txt4, ok4)
 
 
 if __name__ == "__main__":
